@@ -225,6 +225,62 @@ def resolve(qual, pname, seed, tmp, sig):
     return None
 
 
+
+def special_args(qual, seed, tmp):
+    """explicit bindings for callables whose parameters need more than a name-based guess"""
+    rs = np.random.RandomState(seed)
+    last = qual.rsplit('.', 1)[1]
+    if last in ('sets_of_k_pattern',):
+        return dict(rdms=mk_rdms(seed), pattern_descriptor='cond', k=2)
+    if last in ('sets_of_k_rdm',):
+        return dict(rdms=mk_rdms(seed, n_rdm=6), rdm_descriptor='subj', k=2)
+    if last == 'fit_select':
+        from rsatoolbox import model as M
+        return dict(model=M.ModelSelect('s', mk_rdms(seed + 5, 3)), data=mk_rdms(seed))
+    if last == 'calc_rdm_poisson_cv':
+        return dict(dataset=mk_ds(seed), descriptor='cond', cv_descriptor='run')
+    if last == 'from_partials':
+        r = mk_rdms(seed)
+        return dict(list_of_rdms=[r.subset_pattern('cond', r.pattern_descriptors['cond'][:4]),
+                                  r.subset_pattern('cond', r.pattern_descriptors['cond'][2:])], descriptor='cond')
+    if last == 'pairs_by_percentile':
+        from rsatoolbox.rdm import RDMs
+        r = RDMs(rs.rand(1, 15) + .1, pattern_descriptors={'cond': np.array([f'c{i}' for i in range(6)])})
+        return dict(rdms=r, min=20, max=60, cond='c2')
+    if last == 'inverse_permute_rdms':
+        from rsatoolbox.rdm.rdms import permute_rdms
+        return dict(rdms=permute_rdms(mk_rdms(seed), p=np.arange(6)[::-1]))
+    if last == 'num_index':
+        return dict(descriptor=np.array([3, 1, 2, 1]), value=1)
+    if last in ('all_tests', 'pair_tests', 'zero_tests', 'nc_tests'):
+        ev = rs.rand(6, 3)
+        d = dict(evaluations=ev, test_type='t-test', dof=5)
+        if last in ('all_tests', 'nc_tests'):
+            d['noise_ceil'] = rs.rand(2, 6)
+            d['noise_ceil_var'] = rs.rand(3, 2) + .1
+        if last in ('all_tests', 'zero_tests'):
+            d['model_var'] = rs.rand(3) + .1
+        if last in ('all_tests', 'pair_tests'):
+            d['diff_var'] = rs.rand(3) + .1
+        return d
+    if last == 'category_condition_idxs':
+        return dict(rdms=mk_rdms(seed), category_selector='cat')
+    if last == 'compare_neg_riemannian_distance':
+        from rsatoolbox.rdm import RDMs
+        x = rs.randn(5, 8)
+        y = rs.randn(5, 8)
+        from scipy.spatial.distance import pdist
+        return dict(rdm1=RDMs(pdist(x, 'sqeuclidean')[None]), rdm2=RDMs(pdist(y, 'sqeuclidean')[None]))
+    if last == 'calc_one_similarity':
+        d = mk_ds(seed)
+        return dict(data_i=d.subset_obs('cond', 0), data_j=d.subset_obs('cond', 1), cv_desc_i=np.array([0, 1, 2]), cv_desc_j=np.array([0, 1, 2]))
+    if last == 'from_df':
+        return None
+    if last == 'nested_odd_even_split' and 'Temporal' in qual:
+        return None
+    return None
+
+
 # -------------------------------------------------------------------------------- discovery
 def discover():
     import rsatoolbox
@@ -452,6 +508,9 @@ def bind(c, tmp):
         sig = inspect.signature(f)
         params = list(sig.parameters.values())
     args = {}
+    sp = special_args(c['qual'], c['seed'], tmp) if c['owner'] is None else None
+    if sp is not None:
+        return f, selfobj, sp, None
     for p in params:
         if p.kind in (p.VAR_POSITIONAL, p.VAR_KEYWORD):
             continue
